@@ -148,7 +148,7 @@ PROPERTIES = {
     "C11": {
         "level": "proof",
         "must_fail_quick": False,     # the vacuity twins of these units run under the property that owns each unit (and in C11 thorough)
-        "verus_units": ["arith_widen", "arith128", "widediv", "nofrac", "fracops", "round@*", "transc", "log2inner", "sqrtacc", "powiacc", "leaves", "decbin", "decbin128", "parsetop", "digitsint", "tokeniser", "decfrac", "cmp@*", "fromfixed@*", "fromfloat@*", "wrapping", "traitfwd@*", "intconv", "floatglue", "trig", "cmpfloat@*", "cmpfloatrev@*", "cmpint@*", "cmpintrev@*", "bitops@*", "remint@*", "diveuclid@*"],
+        "verus_units": ["arith_widen", "arith128", "widediv", "nofrac", "fracops", "round@*", "transc", "log2inner", "sqrtacc", "powiacc", "leaves", "decbin", "decbin128", "parsetop", "digitsint", "tokeniser", "decfrac", "powfrac", "cmp@*", "fromfixed@*", "fromfloat@*", "wrapping", "traitfwd@*", "intconv", "floatglue", "trig", "cmpfloat@*", "cmpfloatrev@*", "cmpint@*", "cmpintrev@*", "bitops@*", "remint@*", "diveuclid@*"],
         "kani": [{"harness": h, "classes": ["panic"]} for h in
                  _mods("arith8", ["i4f4", "i0f8", "u4f4", "u0f8"], FORMS) + ["arith8::abs_forms_i8"] + TFH
                  + ["float::check_to_f32", "float::check_to_f64", "float::check_kind_f32", "float::check_kind_f64"]
@@ -163,7 +163,7 @@ PROPERTIES = {
     },
     "C08": {
         "level": "other",
-        "verus_units": ["leaves", "decbin", "decbin128", "parsetop", "digitsint", "tokeniser", "decfrac"],
+        "verus_units": ["leaves", "decbin", "decbin128", "parsetop", "digitsint", "tokeniser", "decfrac", "powfrac"],
         "kani": ["parse::parse_u8_hex", "parse::parse_u8_oct", "parse::parse_u8_bin", "parse::parse_i8_hex", "parse::parse_error_kinds",
                  "parse::parse_u8_dec", "parse::parse_i8_dec", "parse::policy_forms_u4f4_dec", "parse::policy_forms_i4f4_hex"],
         "kani_thorough": ["parse::policy_forms_i4f4_dec", "parse::policy_forms_u4f4_oct", {"harness": "parse::parse_u8_dec_long", "timeout": 9000}, {"harness": "parse::parse_i8_dec_long", "timeout": 9000}],
@@ -173,28 +173,30 @@ PROPERTIES = {
                        "get_intN / get_fracN for N = 8..128 incl. their half-width delegation, `frac_is_half`): for every (int_nbits, frac_nbits) with int + frac = N "
                        "the result is wrap(+-A) with the overflow flag !fits(+-A), where A = ival * 2^f + fround + [f == 0, ival odd, fraction exactly one half] "
                        "is the literal's correctly rounded magnitude (ival = the value of the integer digits, a defined function; fround = the rounded fraction: "
-                       "for radix 10 the DEFINED function frac_rne = round-half-even(0.d1..dn * 2^nbits), uninterpreted for radix 2 / 8 / 16); the generic DECIMAL FRACTION parser "
+                       "a DEFINED function for every radix, round-half-even(0.d1..dn * 2^nbits): frac_rne for radix 10, frac_pow2 for radix 2 / 8 / 16); the generic DECIMAL FRACTION parser "
                        "dec_str_frac_to_bin (unit decfrac, generic over the result type, R20): for every trimmed digit string of any length it returns exactly frac_rne "
                        "(None iff that is 2^nbits), including the truncation to the digits the type can hold, the digit-by-digit comparison against the two candidates' "
-                       "boundary and the tie / odd-floor cases; parse_is_short of all five DecToBin impls; and the four generic INTEGER digit loops dec / bin / oct / hex _str_int_to_bin with unchecked_hex_digit (unit digitsint, generic "
+                       "boundary and the tie / odd-floor cases; parse_is_short of all five DecToBin impls; the radix 2 / 8 / 16 FRACTION parsers bin / oct / hex _str_frac_to_bin (unit powfrac, generic over the "
+                       "result type, R21): exactly frac_pow2 (None iff that is 2^nbits) - the digit at which the bits run out split into kept bits, half bit and sticky bits "
+                       "(bit-vector lemma per radix and remaining-bit count), the sticky contribution of the digits after it (non-zero because the fraction is trimmed), "
+                       "the odd-accumulator tie case and the final range check; and the four generic INTEGER digit loops dec / bin / oct / hex _str_int_to_bin with unchecked_hex_digit (unit digitsint, generic "
                        "over the result type, R20): value of the digits modulo 2^W with the exact overflow flag, including the more-digits-than-bits truncation "
                        "path that the bounded harnesses never reach for decimal; and the tokeniser parse_bounds (unit tokeniser, R21): for EVERY byte string and radix it "
                        "never panics (all slice bounds proved) and what it returns consists of valid digits of the radix with the leading zeros of the integer part "
                        "trimmed and the trailing zeros of the fraction trimmed - the facts the recombination layer and dec_str_frac_to_bin rely on.  (2) BOUNDED, Kani: the grammar accepted by the tokeniser (which strings are errors, "
-                       "which sign / point positions are accepted) and the radix 2 / 8 / 16 FRACTION digit loops (iterator adapters) - which layer (1) assumes through "
-                       "uninterpreted functions - and everything else run for real in from_str_u8 / "
+                       "which sign / point positions are accepted) - which layer (1) assumes through an "
+                       "uninterpreted function - and everything else run for real in from_str_u8 / "
                        "from_str_i8 on EVERY byte string of at most 9 bytes (radix 2, 8, 16) resp. 6 bytes quick / 7 bytes thorough (radix 10), all nine 8-bit "
                        "layouts symbolic, against the exactly rounded value of the literal (ties to even), the overflow flag, the wrapped value and the error "
                        "classes of a grammar written independently of the tokeniser; complete within the bound, loops closed by unwinding assertions; "
                        "the policy forms of the public API (plain: overflow error; saturating: the bound on the literal's side; wrapping: the wrapped value) against the "
                        "overflowing form on every ASCII string of at most 4 bytes, I4F4 / U4F4, radix 10 / 16 (8 in thorough)",
         "bounded_parts": ["policy forms (impl_from_str_traits!: closures, str::starts_with): Kani on I4F4 / U4F4, strings of at most 4 bytes",
-                          "the grammar of the tokeniser (error classes, accepted sign / point positions) and the radix 2 / 8 / 16 fraction digit loops (bin / oct / hex _str_frac_to_bin): decided by Kani on "
-                          "the 8-bit instantiation only, string length <= 9 (6 / 7 for decimal); in the Verus layer they are assumed contracts over uninterpreted functions "
-                          "(fround, parse_spec)"],
-        "assumptions": ["unit parsetop: the leaf contracts of the radix 2 / 8 / 16 fraction digit loops and the grammar part of parse_bounds are assumed (external_body, hand-declared signatures generic over the result type); "
-                        "the contracts of the four integer digit loops, of dec_str_frac_to_bin and the digit facts of parse_bounds are assumed there with the statements proved in units digitsint / decfrac / tokeniser; "
-                        "axiom ax_frac_values, for radix 2 / 8 / 16 only (0 <= fround <= 2^nbits, an empty fraction is zero, a fraction of exactly one half rounds to 0 at zero fractional bits; for radix 10 these are proved, lemma_frac_rne_facts); "
+                          "the grammar of the tokeniser (error classes, accepted sign / point positions): decided by Kani on "
+                          "the 8-bit instantiation only, string length <= 9 (6 / 7 for decimal); in the Verus layer it is an assumed contract over the uninterpreted function parse_spec"],
+        "assumptions": ["unit parsetop: the grammar part of parse_bounds (which strings are accepted, where the sign and the point are: uninterpreted parse_spec) is an assumed contract (external_body); "
+                        "the contracts of the four integer digit loops, of the four fraction parsers and the digit facts of parse_bounds are declared there (external_body, hand-declared signatures generic over the "
+                        "result type) with the statements proved in units digitsint / decfrac / powfrac / tokeniser; "
                         "unit decfrac: the contracts of DecToBin::dec_to_bin / parse_is_short and of dec_str_int_to_bin are assumed with the statements proved in units decbin / decbin128 / digitsint; "
                         "IntHelper::MSB is a literal tied to the source text by //@require_source",
                         "unit digitsint: trait-level contracts of the generic unsigned IntHelper (overflowing_mul / overflowing_add, `<<` dropping the shifted-out bits, checked `+` / `-`, "
